@@ -84,6 +84,10 @@ theorem inv_cCas {s s' o} (h : Inv s) (hs : step s (.cCas o) = some s') : Inv s'
   cases o <;> inv_step hs
 theorem inv_cClose {s s'} (h : Inv s) (hs : step s .cClose = some s') : Inv s' := by inv_step hs
 theorem inv_cUnlock {s s'} (h : Inv s) (hs : step s .cUnlock = some s') : Inv s' := by inv_step hs
+theorem inv_swReturn {s s'} (h : Inv s) (hs : step s .swReturn = some s') : Inv s' := by inv_step hs
+theorem inv_swRerun {s s'} (h : Inv s) (hs : step s .swRerun = some s') : Inv s' := by inv_step hs
+theorem inv_swExit {s s' o} (h : Inv s) (hs : step s (.swExit o) = some s') : Inv s' := by
+  cases o <;> inv_step hs
 
 theorem inv_step {s s' a} (h : Inv s) (hs : step s a = some s') : Inv s' := by
   cases a with
@@ -116,6 +120,9 @@ theorem inv_step {s s' a} (h : Inv s) (hs : step s a = some s') : Inv s' := by
   | cCas o => exact inv_cCas h hs
   | cClose => exact inv_cClose h hs
   | cUnlock => exact inv_cUnlock h hs
+  | swReturn => exact inv_swReturn h hs
+  | swRerun => exact inv_swRerun h hs
+  | swExit o => exact inv_swExit h hs
 
 theorem inv_reach {s} (h : Reach s) : Inv s := by
   induction h with
@@ -141,6 +148,32 @@ theorem mu_decreases {s s' : St} {a : Act} (ha : a.isCheck = true) (hs : step s 
   | cUnlock => simp only [step] at hs; (repeat' split at hs) <;> cases hs <;> simp only [mu] <;> omega
   | _ => simp [Act.isCheck] at ha
 
+/-! ## service worker restart loop -/
+
+def Act.rerun : Act → Nat
+  | .swRerun => 1
+  | _ => 0
+
+/-- while the stop flag is set (no restart of the module), a step keeps it set and does not add service workers that
+    may still re-run their function; a re-run consumes one of them. -/
+theorem rerun_step {s s' : St} {a : Act} (hs : step s a = some s') (hf : s.flag = 1) (ha : a ≠ .startBegin) :
+    s'.flag = 1 ∧ s'.swTop0 + a.rerun ≤ s.swTop0 := by
+  cases a with
+  | startBegin => exact absurd rfl ha
+  | inc k => cases k <;> simp only [step] at hs <;> (repeat' split at hs) <;> cases hs <;> simp [Act.rerun, hf]
+  | dec k o => cases k <;> cases o <;> simp only [step] at hs <;> (repeat' split at hs) <;> cases hs <;> simp [Act.rerun, hf]
+  | cFast o => cases o <;> simp only [step] at hs <;> (repeat' split at hs) <;> cases hs <;> simp [Act.rerun, hf]
+  | cFlag o => cases o <;> simp only [step] at hs <;> (repeat' split at hs) <;> cases hs <;> simp [Act.rerun, hf]
+  | cCtrl o => cases o <;> simp only [step] at hs <;> (repeat' split at hs) <;> cases hs <;> simp [Act.rerun, hf]
+  | cW o => cases o <;> simp only [step] at hs <;> (repeat' split at hs) <;> cases hs <;> simp [Act.rerun, hf]
+  | cT o => cases o <;> simp only [step] at hs <;> (repeat' split at hs) <;> cases hs <;> simp [Act.rerun, hf]
+  | cM o => cases o <;> simp only [step] at hs <;> (repeat' split at hs) <;> cases hs <;> simp [Act.rerun, hf]
+  | cCas o => cases o <;> simp only [step] at hs <;> (repeat' split at hs) <;> cases hs <;> simp [Act.rerun, hf]
+  | swExit o => cases o <;> simp only [step] at hs <;> (repeat' split at hs) <;> cases hs <;> simp [Act.rerun, hf]
+  | _ =>
+    simp only [step] at hs
+    (repeat' split at hs) <;> cases hs <;> simp only [Act.rerun] <;> (try dsimp only) <;> grind
+
 /-! ## several modules -/
 
 theorem active_other {s s' : St} {a : Act} (hs : step s a = some s') (h1 : a ≠ .stopBegin) (h2 : a ≠ .sReport) :
@@ -157,6 +190,7 @@ theorem active_other {s s' : St} {a : Act} (hs : step s a = some s') (h1 : a ≠
   | cM o => cases o <;> simp only [step] at hs <;> (repeat' split at hs) <;> cases hs <;> simp [St.active]
   | cCas o => cases o <;> simp only [step] at hs <;> (repeat' split at hs) <;> cases hs <;> simp [St.active]
   | cFast o => cases o <;> simp only [step] at hs <;> (repeat' split at hs) <;> cases hs <;> simp [St.active]
+  | swExit o => cases o <;> simp only [step] at hs <;> (repeat' split at hs) <;> cases hs <;> simp [St.active]
   | _ =>
     simp only [step] at hs
     (repeat' split at hs) <;> cases hs <;> simp only [St.active] <;> grind
